@@ -237,6 +237,10 @@ def flag_configs(tier: str, impls=("casadi",)) -> list:
             out.append(replace(b, flags=frozenset(["positive_init_speed", "positive_next_queue"]), impl=impl,
                                history=((frozenset(["positive_init_queue", "positive_init_density"]), "current"),
                                         (allf, "explicit"))))
+            # the options applied to variables the caller supplied
+            out.append(replace(b, flags=frozenset(), impl=impl, init="user"))
+            out.append(replace(b, flags=allf, impl=impl, init="user"))
+            out.append(replace(b, flags=frozenset(["positive_init_speed"]), impl=impl, init="user"))
             if impl == "numpy" and b.u_origin is not None:
                 # stepped before from 1-element arrays, now from numpy scalars (0-d) of the same values
                 out.append(replace(b, flags=frozenset(), impl=impl, init="user0",
